@@ -34,8 +34,8 @@ def elem_name(lname, k):
     return "%s[%d]" % (lname, k)
 
 
-def _size_decl(n):
-    return {"name": "size", "w": 32, "s": False, "rand": False, "val": n, "enums": None, "is_size": True}
+def _size_decl(n, randsz=False):
+    return {"name": "size", "w": 32, "s": False, "rand": randsz, "val": n, "enums": None, "is_size": True}
 
 
 def blocks_of(scn, cname):
@@ -59,7 +59,7 @@ def scalar_paths(scn, cname=None, path=()):
         if kind == "scalar":
             out.append((path + (n,), decl))
         elif kind == "olist":
-            out.append((path + (n, "size"), _size_decl(decl["n"])))
+            out.append((path + (n, "size"), _size_decl(decl["n"], decl.get("randsz", False))))
             for k in range(decl["n"]):
                 out.extend(scalar_paths(scn, decl["cls"], path + (n, elem_name(n, k))))
         else:
@@ -205,7 +205,10 @@ def build_classes(scn):
                 inst = built[s["cls"]]()
                 setattr(self, s["name"], vsc.rand_attr(inst) if s["rand"] else vsc.attr(inst))
             for l in _cd.get("olists", []):
-                lst = (vsc.rand_list_t if l["rand"] else vsc.list_t)(built[l["cls"]]())
+                if l.get("randsz"):
+                    lst = vsc.randsz_list_t(built[l["cls"]]())
+                else:
+                    lst = (vsc.rand_list_t if l["rand"] else vsc.list_t)(built[l["cls"]]())
                 for _ in range(l["n"]):
                     lst.append(built[l["cls"]]())
                 setattr(self, l["name"], lst)
